@@ -32,7 +32,7 @@ def describe(tier):
         'assumptions': ['crash model of the property: before/after each mutation; no reordering of writes across files, no torn write inside an 8 KiB chunk',
                         'each CLI command is a separate process: a fresh client component per command',
                         'a crashed create-service is retried as a new service (its sid was never reported to the user)'],
-        'must_be_nonzero': ['crash-points', 'server-crashes', 'client-crashes', 'multi-chunk-writes', 'retries', 'final-searches', 'sigkill-replays'],
+        'must_be_nonzero': ['crash-points', 'double-crash-points', 'second-crashes', 'server-crashes', 'client-crashes', 'multi-chunk-writes', 'retries', 'final-searches', 'sigkill-replays'],
     }
 
 
@@ -295,17 +295,23 @@ def crash_points(ops):
     return pts
 
 
-def run_crash(r, seed, wl, pt):
+def run_crash(r, seed, wl, pt, second=None, info=None):
+    """one execution with a crash at pt; second = (j, when): the component that retries the interrupted step is killed again at
+    the j-th in-scope mutation of that retry (a second crash during recovery); info (dict) receives the retry's mutations"""
     name, scheme, dbsize = wl
     case = {'workload': name, 'scheme': scheme, 'db': dbsize, 'crash': pt}
+    if second:
+        case['second_crash_in_retry'] = {'mutation': second[0], 'when': second[1]}
     core.note_case(case)
     site = '%s/%s-%s-%s' % (pt['handler'], pt['when'], pt['kind'], pt['file'])
+    if second:
+        site += '+retry-crash'
     side = 'server' if pt['component'].startswith('server') else 'client'
     run = Run(seed, scheme, dbsize, arm=(pt['component'], pt['k'], pt['when']))
     r['evaluations'] += 1
     r['states'] += 1
     r['nontrivial'] += 1
-    r.count('crash-points')
+    r.count('crash-points' if not second else 'double-crash-points')
     r.count(side + '-crashes')
     if pt['kind'] == 'write' and dbsize == 'big' and pt['file'] == 'edb':
         r.count('multi-chunk-writes')
@@ -313,6 +319,32 @@ def run_crash(r, seed, wl, pt):
     def bad(kind, expected, observed):
         r.v(PROPERTY, side, kind, site, dict(case, log=run.log), expected, observed)
         r.outcome(kind)
+
+    def recover(step):
+        """restart the dead component on the same directory and look at what a user can see; False = fatal"""
+        run.fs.arm = None
+        run.fs.crashed = None
+        if side == 'server':
+            run.w.start_server()
+        if step == 'create' and side == 'client':
+            run.sid = ''      # the sid was never reported: the user creates the service again
+            return True
+        st = run.probe()
+        disk = run.server_state_on_disk()
+        allowed = {'upload-config': (0, 1), 'upload-index': (1, 2)}.get(step, (0, 1, 2))
+        if st is None:
+            bad('handshake-fails-after-restart', 'init echo with a state in %s' % (allowed,), 'connection closed without init echo (server files: %s)' % sorted(run.w.server_files(run.sid)))
+            return False
+        if st not in allowed or st != (disk if isinstance(disk, int) else st):
+            bad('state-inconsistent-after-restart', 'state in %s, consistent with disk (%s)' % (allowed, disk), st)
+        try:
+            cl = fe.ClientDriver(run.w, 'client#load')
+            cl.sid = run.sid
+            cl.load()
+        except Exception as e:
+            bad('client-cannot-load-after-restart', 'Service(sid) loads', core.exc_text(e))
+            return False
+        return True
 
     try:
         run.w.start_server()
@@ -322,37 +354,42 @@ def run_crash(r, seed, wl, pt):
             r['transitions'] += 1
             if run.fs.crashed and crashed_step is None:
                 crashed_step = step
-                run.fs.arm = None
-                # ---- restart the dead component on the same directory
-                if side == 'server':
-                    run.w.start_server()
-                if step == 'create' and side == 'client':
-                    run.sid = ''      # the sid was never reported: the user creates the service again
-                else:
-                    st = run.probe()
-                    disk = run.server_state_on_disk()
-                    allowed = {'upload-config': (0, 1), 'upload-index': (1, 2)}.get(step, (0, 1, 2))
-                    if st is None:
-                        bad('handshake-fails-after-restart', 'init echo with a state in %s' % (allowed,), 'connection closed without init echo (server files: %s)' % sorted(run.w.server_files(run.sid)))
-                        break
-                    if st not in allowed or st != (disk if isinstance(disk, int) else st):
-                        bad('state-inconsistent-after-restart', 'state in %s, consistent with disk (%s)' % (allowed, disk), st)
-                    try:
-                        cl = fe.ClientDriver(run.w, 'client#load')
-                        cl.sid = run.sid
-                        cl.load()
-                    except Exception as e:
-                        bad('client-cannot-load-after-restart', 'Service(sid) loads', core.exc_text(e))
-                        break
-                if not run.post_ok(step):
+                if not recover(step):
+                    break
+                fatal = False
+                attempt = 0
+                while not run.post_ok(step):
+                    attempt += 1
                     r.count('retries')
+                    comp2 = run.w.server_component() if side == 'server' else 'client#%d' % (run.ncli + 1)
+                    base = len(run.fs.ops[comp2])
+                    if second and attempt == 1:
+                        # the j-th in-scope mutation of the retry, counted on the component that died the first time
+                        scope = [k for k, op in enumerate(info['retry_ops']) if op[2] in IN_SCOPE[side]]
+                        run.fs.arm = (comp2, base + scope[second[0]], second[1])
                     o2 = run.cli(step)
                     r['transitions'] += 1
+                    if info is not None and attempt == 1 and not second:
+                        info['retry_ops'] = list(run.fs.ops[comp2][base:])
+                    if second and attempt == 1:
+                        if not run.fs.crashed:
+                            bad('second-crash-point-not-reached', 'the armed mutation of the retry is executed', 'retry finished without reaching it')
+                            fatal = True
+                            break
+                        r.count('second-crashes')
+                        if not recover(step):
+                            fatal = True
+                            break
+                        continue
                     if o2['exc'] and not run.post_ok(step):
-                        bad('interrupted-step-cannot-be-completed', '%s succeeds when retried' % step, o2['exc'])
-                        break
+                        bad('interrupted-step-cannot-be-completed', '%s succeeds when retried%s' % (step, ' after a second crash' if attempt > 1 else ''), o2['exc'])
+                        fatal = True
+                    break
                 else:
-                    r.count('visibly-completed')
+                    if attempt == 0:
+                        r.count('visibly-completed')
+                if fatal:
+                    break
             elif o['exc']:
                 bad('workflow-cannot-continue', 'step %s succeeds%s' % (step, ' after the crash in ' + crashed_step if crashed_step else ''), o['exc'])
                 break
@@ -370,7 +407,7 @@ def run_crash(r, seed, wl, pt):
                     bad('final-search-wrong', run.db.get(w, []), o['result'])
                     break
             else:
-                r.outcome('recovered/%s' % side)
+                r.outcome('recovered/%s%s' % (side, '/twice' if second else ''))
     except Exception as e:
         if isinstance(e, crashfs.Crash):
             raise
@@ -379,6 +416,19 @@ def run_crash(r, seed, wl, pt):
         run.close()
     if r['evaluations'] % 11 == 1:
         r.sample(case)
+
+
+def run_double(r, seed, wl, pt):
+    """all second crashes inside the retry of the step interrupted at pt"""
+    info = {}
+    probe_r = core.Result()
+    run_crash(probe_r, seed, wl, pt, info=info)            # the single-crash execution (also run, and reported, by the plain units)
+    ops = info.get('retry_ops') or []
+    side = 'server' if pt['component'].startswith('server') else 'client'
+    n = len([op for op in ops if op[2] in IN_SCOPE[side]])
+    for j in range(n):
+        for when in ('before', 'after'):
+            run_crash(r, seed, wl, pt, second=(j, when), info=info)
 
 
 def units(tier, seed):
@@ -416,7 +466,10 @@ def run_unit(p, tier, seed):
         return r
     todo = pts if 'only' not in p else [pts[i] for i in p['only']]
     for pt in todo:
-        run_crash(r, seed, wl, pt)
+        if p.get('double'):
+            run_double(r, seed, wl, pt)
+        else:
+            run_crash(r, seed, wl, pt)
     det.restore()
     return r
 
@@ -435,6 +488,9 @@ def _expand(units_list, tier, seed):
             out.append(('%s/%d' % (uid, lo), dict(p, only=list(range(lo, min(lo + 6, n))))))
         if wl[0] == 'PiBas-small':
             out.append(('%s/sigkill' % uid, dict(p, sigkill=('all' if tier != 'quick' else 'some'))))
+        if wl[0] == 'PiBas-small' or (tier != 'quick' and wl[0] in ('PiBas-small-cli', 'PiBas-big')):
+            for lo in range(0, n, 4):
+                out.append(('%s/double/%d' % (uid, lo), dict(p, double=True, only=list(range(lo, min(lo + 4, n))))))
     return out
 
 
@@ -461,5 +517,11 @@ def replay(case, seed):
         for b in bad:
             r.v(PROPERTY, 'harness', 'virtual-vs-sigkill-disagreement', 'crashfs', case, 'same tree', b)
         return r['violations']
-    run_crash(r, seed, (case['workload'], case['scheme'], case['db']), case['crash'])
+    wl = (case['workload'], case['scheme'], case['db'])
+    if case.get('second_crash_in_retry'):
+        info = {}
+        run_crash(core.Result(), seed, wl, case['crash'], info=info)
+        run_crash(r, seed, wl, case['crash'], second=(case['second_crash_in_retry']['mutation'], case['second_crash_in_retry']['when']), info=info)
+        return r['violations']
+    run_crash(r, seed, wl, case['crash'])
     return r['violations']
